@@ -29,6 +29,7 @@ RBag(s) == [t |-> "bag", v |-> s]
 RAny == [t |-> "any"]
 ROneOf(S) == [t |-> "oneof", v |-> S]
 RIntRange(lo, hi) == [t |-> "intrange", lo |-> lo, hi |-> hi]
+RAnyInt == [t |-> "anyint"]                  \* some integer
 RNone == [t |-> "none"]
 RClosed == [t |-> "closed"]
 
@@ -50,6 +51,7 @@ Match(e, o) ==
     [] e.t = "blocks" -> TRUE      \* the reply comes later: checked when the client is served / times out
     [] e.t = "oneof" -> \E x \in e.v : Match(x, o)
     [] e.t = "err" -> o.t = "err"
+    [] e.t = "anyint" -> o.t = "int"
     [] e.t = "intrange" ->
          /\ o.t = "int"
          /\ IsLooseInt(o.v)
